@@ -91,7 +91,15 @@ func (c conj) String() string {
 // result that is itself a condition X becomes (true <= ..., X) and (false <= ..., !X).
 func decisionOf(fn *ssa.Function, idx int) []conj {
 	var out []conj
+	var alts []RetAlt
 	for _, alt := range ReturnAlts(fn, idx) {
+		// a condition that is a stored `a && b` / `a || b` taken on the side that is a
+		// disjunction (not (a && b)) is one alternative per way of getting there
+		for _, cs := range condsDNF(alt.Conds, 3) {
+			alts = append(alts, RetAlt{alt.Val, cs, alt.Block, alt.Ret})
+		}
+	}
+	for _, alt := range alts {
 		c := conj{lits: map[string]bool{}}
 		add := func(a string, pol bool) {
 			if a == "" {
@@ -103,6 +111,9 @@ func decisionOf(fn *ssa.Function, idx int) []conj {
 			c.lits[a] = pol
 		}
 		for _, cd := range alt.Conds {
+			if _, isPhi := cd.V.(*ssa.Phi); isPhi && isBool(cd.V.Type()) && shortCircuitPhi(cd.V.(*ssa.Phi)) >= 0 {
+				continue // replaced by its operands (condsDNF / expandConds)
+			}
 			add(litOf(cd))
 		}
 		if c.dead {
@@ -280,11 +291,89 @@ func checkDecision(r *Report, rule, key string, fn *ssa.Function, idx int, want 
 				bad = fmt.Sprintf("%s %s under [%s]", what, v, trunc(strings.Join(ls, " ; "), 700))
 			}
 		}
-		k := key + "/returns-" + trunc(v, 40) + "-exactly-when-reviewed"
+		short := v
+		if len(short) > 40 {
+			h := uint32(2166136261)
+			for i := 0; i < len(v); i++ {
+				h = (h ^ uint32(v[i])) * 16777619
+			}
+			short = fmt.Sprintf("%s…%08x", v[:24], h)
+		}
+		k := key + "/returns-" + short + "-exactly-when-reviewed"
 		if bad == "" {
 			r.Hold(rule, k, fn.Pos(), 1, "returns %s under exactly the reviewed conditions (%d conditions, %d rows compared)", trunc(v, 60), len(atoms), 1<<len(atoms))
 		} else {
 			r.Fail(rule, k, fn.Pos(), "%s", bad)
 		}
 	}
+}
+
+// shortCircuitPhi: ph is the value of `a && b` or `a || b` (every edge but one
+// a boolean constant, all the same); returns the index of the other edge, or -1.
+func shortCircuitPhi(ph *ssa.Phi) int {
+	idx, n := -1, 0
+	var k *bool
+	for i, e := range ph.Edges {
+		if b, ok := constBool(e); ok {
+			if k != nil && *k != b {
+				return -1
+			}
+			bb := b
+			k = &bb
+			continue
+		}
+		idx = i
+		n++
+	}
+	if n != 1 || k == nil {
+		return -1
+	}
+	return idx
+}
+
+// condsDNF expands conditions on short-circuit values into the ways they can
+// come about: the result is a list of condition lists (a disjunction of conjunctions).
+func condsDNF(cs []Cond, depth int) [][]Cond {
+	out := [][]Cond{{}}
+	for _, c := range cs {
+		alts := [][]Cond{{c}}
+		if ph, isPhi := c.V.(*ssa.Phi); isPhi && isBool(ph.Type()) && depth > 0 {
+			if i := shortCircuitPhi(ph); i >= 0 {
+				var k bool
+				for j, e := range ph.Edges {
+					if j != i {
+						k, _ = constBool(e)
+					}
+				}
+				alts = nil
+				// through the edge that carries the second operand
+				via := append(CondsOfEdge(ph.Block().Preds[i], ph.Block()), Cond{ph.Edges[i], c.Pol, c.If})
+				for _, sub := range condsDNF(via, depth-1) {
+					alts = append(alts, append([]Cond{c}, sub...))
+				}
+				// through a short-circuiting edge, when the constant is the value asked for
+				if k == c.Pol {
+					for j := range ph.Edges {
+						if j == i {
+							continue
+						}
+						for _, sub := range condsDNF(CondsOfEdge(ph.Block().Preds[j], ph.Block()), depth-1) {
+							alts = append(alts, append([]Cond{c}, sub...))
+						}
+					}
+				}
+			}
+		}
+		var next [][]Cond
+		for _, o := range out {
+			for _, a := range alts {
+				next = append(next, append(append([]Cond{}, o...), a...))
+			}
+		}
+		out = next
+		if len(out) > 64 {
+			return [][]Cond{cs}
+		}
+	}
+	return out
 }
